@@ -1227,7 +1227,9 @@ pub fn choking(seed: u64) -> Plan {
         peer.accept_delay = r.range(1, 60);
         peer.net.lat_min = 1;
         peer.net.lat_max = *r.pick(&[1u64, 1, 5]);
-        peer.unchoke = if seeder { Unchoke::OnInterested(r.range(1, 300)) } else { Unchoke::Never };
+        // leechers unchoke the client too, otherwise its have-announcements are held back and
+        // they never learn what they could request
+        peer.unchoke = if seeder { Unchoke::OnInterested(r.range(1, 300)) } else { Unchoke::At(r.range(1, 500)) };
         // different speeds (tied for some runs)
         let d = if tied { 500 } else { *r.pick(&[100u64, 300, 700, 1500, 3000]) };
         peer.answer.delay_min = d;
